@@ -15,8 +15,8 @@ MANIFEST = {
     "technique": 'Lean 4 proof over the executable world model and its interleaving semantics; differential correspondence of whole histories and of forced thread schedules against the real FakeTRX objects; black-box property reference as failing-input oracle',
     "design_ref": "DESIGN.md section 5 C03",
 }
-CORR_PROFILES = ['traffic', 'wrap', 'mixed', 'revisit']
-ORACLE_PROFILES = ['wrap', 'traffic', 'mixed', 'revisit']
+CORR_PROFILES = ['traffic', 'wrap', 'mixed', 'revisit', 'family']
+ORACLE_PROFILES = ['wrap', 'traffic', 'mixed', 'revisit', 'family']
 
 
 def gen(run):
